@@ -10,6 +10,7 @@
    the cleavage residue) and c_keyhdr true (sort by sequence and header) = the proposed repairs.
    Theorems without a hypothesis on a switch hold for both. *)
 From Coq Require Import ZArith List Bool Permutation.
+From MoPep Require Gen.Expasy Model.ExpasyRef Proofs.ExpasyProofs.
 From MoPep Require Import Model.Base Model.Rule Model.Digest Model.Decoy Proofs.DecoyProofs Proofs.DecoyWitness Gen.DecoyCli.
 Import ListNotations.
 Open Scope nat_scope.
@@ -202,3 +203,10 @@ Theorem code_shuffle_sequence_is_model : forall s fixed shuffled,
   Py_decoy_fasta.py_shuffle_sequence s fixed shuffled = POk (shuffle_sequence s fixed shuffled).
 Proof. exact code_shuffle_sequence_is_model_l. Qed.
 Print Assumptions code_shuffle_sequence_is_model.
+
+(* The oracle of this property digests with the rule tables regenerated from expasy_rules.py
+   (coq/Gen/Expasy.v); they must be the ExPASy reference rules (same obligation as in Props/C10.v),
+   otherwise model and implementation would silently follow a changed rule together. *)
+Theorem rules_are_expasy_reference : MoPep.Gen.Expasy.site_rules = MoPep.Model.ExpasyRef.reference_rules.
+Proof. exact MoPep.Proofs.ExpasyProofs.rules_match_reference_proof. Qed.
+Print Assumptions rules_are_expasy_reference.
